@@ -243,6 +243,12 @@ func fresh(seed int64, srpCalls int, out string, streamSeed uint64) {
 				Salt1: r.Bytes(8), Salt2: r.Bytes(16), G: int32(spec[1]), P: p},
 			SRPB:  pad(new(big.Int).Sub(pBig, big.NewInt(12345)), 256),
 			SRPID: int64(gi + 1),
+			// what else the server puts into account.password - its own secure_random (of any length it likes), a hint, the
+			// algorithms for a NEW password - must have no part in how much of the ephemeral comes from the system source
+			SecureRandom: r.Bytes([]int{1, 0, 256}[gi%3]),
+			Hint:         "h",
+			HasRecovery:  gi%2 == 0,
+			NewAlgo:      &telegram.PasswordKdfAlgoUnknown{},
 		}})
 	}
 	srpN := 0
